@@ -249,9 +249,10 @@ class CSSImportRule(cssrule.CSSRule):
 
             # set all
             if ok:
-                self._setSeq(newseq)
-
+                # may raise, so before anything is replaced
                 self.atkeyword = new['keyword']
+
+                self._setSeq(newseq)
                 self.hreftype = new['hreftype']
                 self.name = new['name']
 
